@@ -18,20 +18,31 @@ BOUNDS = dict(quick=dict(SystemSOC="nspin 1 and 2, 1..2 orbitals per spin, spin-
                          "2 concrete spin axes, 8 listing orders (one symbolic choice applied to every directory)", num_wann="1..4 (text), 1..3 (npz)", nR="1, 3", lattice="3 concrete generic cells", centres="symbolic", matrices="Ham (+AA) symbolic complex",
                          listing_order="all 120 orders of 5 property files (+ Ham); 8 enumerated orders (symbolic choice) of the full 9-file directory x both orders of the matrix files",
                          WT_centres="one symbolic centre (3 coordinates, all sign / |x|<=1e-7 branches) at every position, the other centres concrete incl. 0, 5e-8, negative"),
-              thorough=dict(SystemSOC="as quick, 1..3 orbitals, 4 spin axes", num_wann="1..6 (text), 1..3 (npz)", nR="1, 3, 5", lattice="3 concrete generic cells", centres="symbolic", matrices="Ham (+AA) symbolic complex",
-                            listing_order="all 5040 x 2 orders of the 7 property files and 2 matrix files (matrix files listed after the property files in the first listing)",
-                            WT_centres="as quick"))
+              thorough=dict(num_wann="1..6 (_tb.dat), 1..7 (_hr.dat), 1..9 (WT centre file), 1..6 (npz), odd and even",
+                            nR="1, 3, 5, 17, 31 (17/31: closed under inversion, components up to +-100 and 2-digit negatives, R=0 in the middle; the degeneracy-weight lines wrap after 15)",
+                            lattice="3 concrete generic cells", centres="symbolic", matrices="Ham (+AA) symbolic complex; npz also BB, SS, OO(3x3) - up to 5 matrices",
+                            listing_order="all 5040 x 2 orders of the 7 property files and 2 matrix files (matrix files listed after the property files in the first listing); all 720 orders of "
+                            "6 property files; 8 orders of the property listing x all 120 orders of 5 matrix files; 8 orders of 10-property directories (with structure attributes)",
+                            SystemSOC="nspin 1 and 2, 1..4 orbitals per spin, R-sets of spin-up / spin-down / SOC matrices all different (3, 5, 17 R-vectors in five combinations), 10 spin axes, 8 listing orders",
+                            field_overflow="_tb.dat (nw<=3, nR<=5, Ham+AA) and _hr.dat (nw<=3): every choice of at most one '15.8e' field that fills its width (every negative number does) "
+                            "or needs a 3-digit exponent (N fields -> N+1 paths)",
+                            WT_centres="as quick, num_wann up to 9"))
 EXPLANATION = ("A real System_R with symbolic Wannier centres and symbolic complex Ham/AA is written by the real writers into an in-memory file model (numbers become tokens "
                "carrying their format spec) and read back by the real readers; every token read is a fresh real within half a unit of the last printed digit (exact for repr).  "
                "z3 decides per entry that what is read at [iR,m,n(,a)] is what was written there to printed precision (column / loop order, Ndegen, the convention II<->I shift of AA, "
                "the even/odd interleave of the WT centre file), on every branch of the |x|>1e-7 tests; the order in which the directory listing returns the npz files is a symbolic permutation.  "
                "SystemSOC (spin-up/spin-down System_R + symbolic spin-orbit matrices, non-magnetic nspin=1 and magnetic nspin=2) is saved and re-loaded the same way: has_soc, nspin, every matrix "
-               "of the three directories, the centres, the cell and the assembled Hamiltonian H_up (+) H_down + [has_soc]*Ham_SOC of the reloaded system are those of the saved one.")
-ASSUMPTIONS = ["SystemSOC: the SOC matrices are set and set_soc_axis was called before saving (has_soc=True), the cell is set (to_npz cannot save cell=None)",
+               "of the three directories, the centres, the cell and the assembled Hamiltonian H_up (+) H_down + [has_soc]*Ham_SOC of the reloaded system are those of the saved one.  "
+               "Thorough tier: R-sets of 17/31 vectors (wrapping degeneracy lines, multi-digit and negative components), up to 9 orbitals, up to 5 matrices with every order of the matrix listing, "
+               "and the opt-in field-overflow model on the '15.8e' fields (one field per path rendered without its leading blanks).")
+ASSUMPTIONS = ["field-overflow cases (thorough): at most one '15.8e' field per file fills or exceeds its width",
+               "SystemSOC: the SOC matrices are set and set_soc_axis was called before saving (has_soc=True), the cell is set (to_npz cannot save cell=None)",
                "AA(R=0) has zero diagonal in convention I (System_R.check_AA_diag_zero; the centres live in wannier_centers_cart)",
                "the list of R-vectors contains R=0", "_hr.dat: real_lattice is passed to the reader (the format does not hold it)",
                "use_convention_II=False / convention_II_to_I=False: the centres are passed to the reader (that variant of the file does not hold them)"]
-OUTSIDE = ["SystemSOC: symbolic spin axis (theta, phi concrete), magnetic space group from the cell (set_cell is called after set_soc_axis), k-space evaluation (Data_K_soc)",
+OUTSIDE = ["field overflow: more than one overflowing field per file; integer fields (R components, orbital numbers) are concrete and rendered by Python itself (3-digit negative R components are in "
+           "the thorough sets); the '{:10}' fields of the WT centre file (repr, no fixed width) are always separated by blanks",
+           "SystemSOC: symbolic spin axis (theta, phi concrete), magnetic space group from the cell (set_cell is called after set_soc_axis), k-space evaluation (Data_K_soc)",
            "symbolic lattice (three concrete generic lattices; np.savetxt prints 19 significant digits, exact for doubles)",
            "'same bands and Berry curvature' is the consequence of equal lattice/centres/R-vectors/matrices and is not evaluated separately (evaluate_k is not run)",
            "symmetry groups beyond {E}, {E,I}, {E,C2z,TR,C2z*TR} on matching lattices; magnetic / structure attributes other than positions, atom_labels, magnetic_moments",
@@ -52,6 +63,18 @@ LATTICES = [np.array([[2.0, 0.1, 0.0], [0.0, 2.25, 0.3], [0.2, 0.0, 2.5]]),
             np.array([[0.0, 2.7, 2.7], [2.7, 0.0, 2.7], [2.7, 2.7, 0.0]]) + np.array([[0.01, 0, 0], [0, 0.02, 0], [0, 0, 0.03]])]
 GROUPS = {"E": [], "I": ["Inversion"], "C2zT": ["C2z", "TimeReversal"]}      # C2zT needs LATTICES[1]
 IRVECS = {1: [[0, 0, 0]], 3: [[1, 0, 0], [0, 0, 0], [-1, 0, 0]], 5: [[0, 1, -1], [-1, 0, 0], [0, -1, 1], [0, 0, 0], [1, 0, 0]]}
+
+
+def _rset(n):
+    """n R-vectors (n odd), closed under inversion, multi-digit and negative components, R=0 in the middle, one pair with 3-digit components"""
+    half = [[k, -2 * k, 11 * k - 40] for k in range(1, (n - 1) // 2)] + [[100, -100, 7]]
+    out = []
+    for i, r in enumerate(half):
+        out += [r, [-x for x in r]] if i % 2 else [[-x for x in r], r]
+    return out[:n // 2] + [[0, 0, 0]] + out[n // 2:]
+
+
+IRVECS[17], IRVECS[31] = _rset(17), _rset(31)       # more than 15 R-vectors: the degeneracy-weight lines of _tb.dat / _hr.dat wrap
 DIR = "mem/sys"
 
 
@@ -185,6 +208,7 @@ class SymGlob:
 
 def install(mode="sorted", first=None, shared=False):
     fs = tok.MemFS()
+    tok.overflow_model(False)
     p = TokNp(fs)
     for m in (SR, TB, HR, SY, SOCM, RV):
         m.np = p
@@ -211,7 +235,7 @@ def mk_system(mod, nw, nR, lat, mats=("Ham",), group="E", wcc=None, sym=True, st
     s.rvec = Rvectors(lattice=s.real_lattice, iRvec=iRvec, shifts_left_red=s.wannier_centers_red)
     vals = {}
     for key in mats:
-        shape = (nR, nw, nw) + ((3,) if key == "AA" else ())
+        shape = (nR, nw, nw) + {"Ham": (), "OO": (3, 3)}.get(key, (3,))
         X = symvec(tag + key, shape, real=False) if sym else rng.uniform(-1, 1, shape) + 1j * rng.uniform(-1, 1, shape)
         if key == "AA":
             X[s.rvec.iR0, np.arange(nw), np.arange(nw)] = SymC.of(0) if sym else 0
@@ -259,13 +283,14 @@ def case_tb(rec, combos):
         _tb(rec, **c)
 
 
-def _tb(rec, nw, nR, lat, aa, conv, give_wcc, berry):
-    """conv: True = write convention II / read II->I (default), False = both off"""
+def _tb(rec, nw, nR, lat, aa, conv, give_wcc, berry, overflow=False):
+    """conv: True = write convention II / read II->I (default), False = both off; overflow: symx.tok field-overflow model on the '15.8e' fields"""
     fs, g = install()
     s, wcc, vals = mk_system(SR, nw, nR, lat, ("Ham", "AA") if aa else ("Ham",))
     iR0 = s.rvec.iR0
 
     def body(rec):
+        tok.overflow_model(overflow)
         rec.witness = lambda env: dict(fmt="tb", nw=nw, nR=nR, lat=lat, aa=aa, conv=conv, give_wcc=give_wcc, berry=berry, wcc=env.arr(wcc),
                                        **{k: env.arr(v) for k, v in vals.items()})
         s.to_tb_file(tb_file=DIR + "_tb.dat", use_convention_II=conv)
@@ -299,16 +324,17 @@ def case_hr(rec, combos):
         _hr(rec, **c)
 
 
-def _hr(rec, nw, nR, lat, pos, full):
+def _hr(rec, nw, nR, lat, pos, full, overflow=False):
     """pos: index of the symbolic centre (None: all concrete); full: whole system through write_hr_file/get_system_hr, else only the centre file"""
     fs, g = install()
     c = symvec("c", (3,))
-    wcc = sarr([[SymC.of(v) for v in WT_CONCRETE[i]] if i != pos else list(c) for i in range(nw)])
+    wcc = sarr([[SymC.of(v) for v in WT_CONCRETE[i % len(WT_CONCRETE)]] if i != pos else list(c) for i in range(nw)])
     if pos is None:
         wcc = np.array(WT_CONCRETE[:nw])
     s, _, vals = mk_system(SR, nw, nR, lat, ("Ham",), wcc=wcc) if full else (None, None, {})
 
     def body(rec):
+        tok.overflow_model(overflow)
         rec.witness = lambda env: dict(fmt="hr", nw=nw, nR=nR, lat=lat, full=full, wcc=env.arr(np.asarray(wcc, dtype=object)), **{k: env.arr(v) for k, v in vals.items()})
         if full:
             s.to_hr_file(seedname=DIR)
@@ -381,15 +407,15 @@ def case_npz(rec, nw, nR, lat, group, mats, exclude, mode, first=None, structure
 SOC_KEYS = {1: ["dV_soc_wann_0_0"], 2: ["dV_soc_wann_0_0", "dV_soc_wann_1_1", "dV_soc_wann_0_1", "overlap_up_down"]}
 
 
-def mk_soc(nspin, norb, lat, theta, phi, sym=True, given=None):
-    """SystemSOC from a spin-up (nR=3) and, for nspin=2, a spin-down (nR=5, other centres) System_R, symbolic SOC matrices on its own R-set, axis (theta, phi);
+def mk_soc(nspin, norb, lat, theta, phi, sym=True, given=None, nRs=(3, 5, 3)):
+    """SystemSOC from a spin-up (nRs[0] R-vectors) and, for nspin=2, a spin-down (nRs[1], other centres) System_R, symbolic SOC matrices on its own R-set (nRs[2]), axis (theta, phi);
     given: concrete values {name: array} (replay)"""
     given = given or {}
-    up, cu, vu = mk_system(SR, norb, 3, lat, ("Ham", "AA"), tag="u", sym=sym, wcc=given.get("uc"))
+    up, cu, vu = mk_system(SR, norb, nRs[0], lat, ("Ham", "AA"), tag="u", sym=sym, wcc=given.get("uc"))
     vals = {"uc": cu, **{"u" + k: v for k, v in vu.items()}}
     down = None
     if nspin == 2:
-        down, cd, vd = mk_system(SR, norb, 5, lat, ("Ham", "AA"), tag="d", sym=sym, wcc=given.get("dc"))
+        down, cd, vd = mk_system(SR, norb, nRs[1], lat, ("Ham", "AA"), tag="d", sym=sym, wcc=given.get("dc"))
         vals.update({"dc": cd, **{"d" + k: v for k, v in vd.items()}})
     for sysm, t in ((up, "u"), (down, "d")):
         for k in ("Ham", "AA"):
@@ -398,10 +424,10 @@ def mk_soc(nspin, norb, lat, theta, phi, sym=True, given=None):
                 vals[t + k] = given[t + k]
     soc = SOCM.SystemSOC(system_up=up, system_down=down)
     soc.set_pointgroup()
-    soc.rvec = Rvectors(lattice=soc.real_lattice, iRvec=np.array(IRVECS[3]), shifts_left_red=soc.wannier_centers_red)
+    soc.rvec = Rvectors(lattice=soc.real_lattice, iRvec=np.array(IRVECS[nRs[2]]), shifts_left_red=soc.wannier_centers_red)
     rng = np.random.default_rng(11)
     for k in SOC_KEYS[nspin]:
-        shape = (3, norb, norb) + (() if k == "overlap_up_down" else (3,))
+        shape = (nRs[2], norb, norb) + (() if k == "overlap_up_down" else (3,))
         X = given[k] if k in given else (symvec(k, shape, real=False) if sym else rng.uniform(-1, 1, shape) + 1j * rng.uniform(-1, 1, shape))
         soc.set_R_mat(k, X)
         vals[k] = X
@@ -425,15 +451,15 @@ def soc_hamiltonian(soc):
     return sr.rvec.iRvec, H
 
 
-def case_soc(rec, nspin, norb, lat, theta, phi):
+def case_soc(rec, nspin, norb, lat, theta, phi, nRs=(3, 5, 3)):
     fs, g = install(ORDERS8, shared=True)
-    soc, vals = mk_soc(nspin, norb, lat, theta, phi)
+    soc, vals = mk_soc(nspin, norb, lat, theta, phi, nRs=nRs)
     iR_ref, H_ref = soc_hamiltonian(soc)
 
     def body(rec):
         g.calls = 0
         fs.files.clear()
-        rec.witness = lambda env: dict(fmt="soc", nspin=nspin, norb=norb, lat=lat, theta=theta, phi=phi, listing=g.decode(env), vals={k: env.arr(np.asarray(v, dtype=object)) for k, v in vals.items()})
+        rec.witness = lambda env: dict(fmt="soc", nspin=nspin, norb=norb, lat=lat, theta=theta, phi=phi, nRs=list(nRs), listing=g.decode(env), vals={k: env.arr(np.asarray(v, dtype=object)) for k, v in vals.items()})
         soc.to_npz(DIR)
         back = SOCM.SystemSOC.from_npz(DIR)
         rec.concrete("soc npz: nspin, num_wann, iRvec, lattice", (back.nspin, int(back.num_wann)) == (nspin, 2 * norb) and np.array_equal(back.rvec.iRvec, soc.rvec.iRvec)
@@ -487,6 +513,36 @@ def cases(tier, seed):
     for nspin, norb, lat, th, ph in ((1, 1, 0, 0.7, 0.4), (2, 1, 1, 0.7, 0.4), (1, 2, 2, 0.3, 1.1), (2, 2, 0, 0.0, 0.0)) + (() if q else ((1, 3, 1, 1.2, 2.0), (2, 3, 2, 2.1, 0.5))):
         out.append(Case(f"npz SystemSOC nspin={nspin} norb={norb} 8 listing orders", case_soc, dict(nspin=nspin, norb=norb, lat=lat, theta=th, phi=ph), timeout=900))
     if not q:
+        T = 3000
+        # more than 15 R-vectors (wrapping Ndegen lines), multi-digit / negative R components, more orbitals (odd and even)
+        for nw, nR in ((1, 17), (2, 17), (3, 17), (4, 17), (1, 31), (2, 31), (3, 31), (5, 3), (6, 3), (5, 5)):
+            combos = [dict(nw=nw, nR=nR, lat=(nw + nR + i) % 3, aa=v[0], conv=v[1], give_wcc=v[2], berry=v[3]) for i, v in enumerate(variants)]
+            big = nw * nw * nR > 200
+            out.append(Case(f"tb nw={nw} nR={nR} with AA", case_tb, dict(combos=combos[:1] + combos[2:3] if big else combos[:4]), timeout=T))
+            out.append(Case(f"tb nw={nw} nR={nR} without AA", case_tb, dict(combos=combos[4:]), timeout=T))
+        for nw, nR in ((1, 17), (2, 17), (3, 17), (4, 17), (2, 31), (3, 31), (5, 5), (6, 3), (7, 3)):
+            out.append(Case(f"hr full system nw={nw} nR={nR}", case_hr, dict(combos=[dict(nw=nw, nR=nR, lat=nw % 3, pos=nw // 2, full=True)]), timeout=T))
+        for nw in (7, 8, 9):
+            out.append(Case(f"hr centre file nw={nw} symbolic centre at every position", case_hr, dict(combos=[dict(nw=nw, nR=1, lat=0, pos=p, full=False) for p in range(nw)]), timeout=T))
+        # field-overflow model on the '15.8e' fields: every choice of at most one field that fills its width (negative numbers do) or needs a 3-digit exponent
+        for nw, nR in ((1, 3), (2, 3), (2, 5), (3, 3)):
+            out.append(Case(f"tb nw={nw} nR={nR} with AA, one '15.8e' field may fill / overflow its width", case_tb,
+                            dict(combos=[dict(nw=nw, nR=nR, lat=nw % 3, aa=True, conv=True, give_wcc=False, berry=True, overflow=True)]), timeout=T))
+            out.append(Case(f"hr full system nw={nw} nR={nR}, one '15.8e' field may fill / overflow its width", case_hr,
+                            dict(combos=[dict(nw=nw, nR=nR, lat=nw % 3, pos=None, full=True, overflow=True)]), timeout=T))
+        # more matrices per system: 8 orders of the property listing x all 120 orders of the matrix listing; more orbitals / R-vectors
+        out.append(Case("npz nw=3 nR=5 five matrices (Ham AA BB SS OO), every order of the matrix listing x 8 orders of the property listing", case_npz,
+                        dict(nw=3, nR=5, lat=2, group="I", mats=("Ham", "AA", "BB", "SS", "OO"), exclude=(), mode="orders8", structure=True), timeout=T))
+        for nw, nR in ((4, 17), (5, 5), (6, 31)):
+            out.append(Case(f"npz nw={nw} nR={nR} full directory with structure attributes, 8 listing orders", case_npz,
+                            dict(nw=nw, nR=nR, lat=nw % 3, group="E" if nw % 3 != 1 else "C2zT", mats=("Ham", "AA", "SS"), exclude=(), mode="orders8", structure=True), timeout=T))
+        out.append(Case("npz nw=1 nR=5 directory of 6 property files + Ham, every listing order", case_npz,
+                        dict(nw=1, nR=5, lat=2, group="E", mats=("Ham",), exclude=("is_phonon",), mode="all"), timeout=T))
+        # SOC systems whose three R-sets differ, more orbitals, more axes
+        for nspin, norb, lat, th, ph, nRs in ((2, 1, 0, 0.4, 2.2, (5, 17, 3)), (2, 2, 1, 1.9, 0.3, (17, 5, 5)), (1, 2, 2, 2.8, 4.0, (17, 5, 5)), (2, 3, 0, 0.9, 5.1, (3, 17, 5)),
+                                           (1, 4, 1, 1.1, 0.2, (5, 5, 17)), (2, 4, 2, 0.2, 3.3, (5, 3, 3))):
+            out.append(Case(f"npz SystemSOC nspin={nspin} norb={norb} R-sets up/down/soc={nRs} 8 listing orders", case_soc,
+                            dict(nspin=nspin, norb=norb, lat=lat, theta=th, phi=ph, nRs=nRs), timeout=T))
         for first in range(7):
             out.append(Case(f"npz nw=2 nR=3 full directory, every listing order starting with property file #{first}", case_npz,
                             dict(nw=2, nR=3, lat=1, group="C2zT", mats=("Ham", "AA"), exclude=(), mode="all", first=first), timeout=3000))
@@ -614,7 +670,7 @@ def replay(rec):
                     import wannierberri.system.system_R as sr
                     given = {k: fill(v) for k, v in w["vals"].items()}
                     given = {k: (v.real if k.endswith("c") and len(k) == 2 else v.astype(complex)) for k, v in given.items()}
-                    soc, _ = mk_soc(w["nspin"], w["norb"], w["lat"], w["theta"], w["phi"], sym=False, given=given)
+                    soc, _ = mk_soc(w["nspin"], w["norb"], w["lat"], w["theta"], w["phi"], sym=False, given=given, nRs=tuple(w.get("nRs", (3, 5, 3))))
                     _, H_ref = soc_hamiltonian(soc)
                     d = os.path.join(tmp, "sys")
                     soc.to_npz(d)
